@@ -81,9 +81,12 @@ func genCaseC07(t *rapid.T) *c07Case {
 		if len(sites) > 0 {
 			for i := 0; i < rapid.IntRange(1, 3).Draw(t, "nFaults"); i++ {
 				n, f := parseSite(rapid.SampledFrom(sites).Draw(t, fmt.Sprintf("fs%d", i)))
-				fl := hx.Fault{Node: n, Field: f, Kind: rapid.SampledFrom([]string{"err", "group", "ext"}).Draw(t, fmt.Sprintf("fk%d", i))}
-				if fl.Kind == "group" {
+				fl := hx.Fault{Node: n, Field: f, Kind: rapid.SampledFrom([]string{"err", "group", "ext", "lext", "wgroup"}).Draw(t, fmt.Sprintf("fk%d", i))}
+				if fl.Kind == "group" || fl.Kind == "wgroup" {
 					fl.N = 2
+				}
+				if fl.Kind == "lext" {
+					fl.N = rapid.IntRange(0, 3).Draw(t, fmt.Sprintf("fn%d", i))
 				}
 				if fl.Kind == "err" {
 					fl.Msg = rapid.SampledFrom(hostileMsgs).Draw(t, fmt.Sprintf("fm%d", i))
